@@ -138,6 +138,10 @@ type Diff struct {
 	Nonce   []AV     `json:"nonce,omitempty"`
 	Store   []AKV    `json:"store,omitempty"`
 	Decl    []string `json:"decl,omitempty"` // Cairo0 class hashes declared by the block
+	// Deliv: class hashes whose (Cairo0) definition is DELIVERED with the block without being declared by it: the
+	// definitions the synchroniser fetches for the class hashes of the block's deployed contracts
+	// (sync/data_source.go fetchUnknownClasses). Every entry is the class hash of one of Deploy (C03.Model.deliv_ok).
+	Deliv []string `json:"deliv,omitempty"`
 }
 
 func (d *Diff) Clone() *Diff {
@@ -147,20 +151,32 @@ func (d *Diff) Clone() *Diff {
 		Nonce:   append([]AV(nil), d.Nonce...),
 		Store:   append([]AKV(nil), d.Store...),
 		Decl:    append([]string(nil), d.Decl...),
+		Deliv:   append([]string(nil), d.Deliv...),
 	}
 }
 
 // Len is the number of entries.
 func (d *Diff) Len() int {
-	return len(d.Deploy) + len(d.Replace) + len(d.Nonce) + len(d.Store) + len(d.Decl)
+	return len(d.Deploy) + len(d.Replace) + len(d.Nonce) + len(d.Store) + len(d.Decl) + len(d.Deliv)
 }
 
-// Without returns a copy with entry i (counted over deploy, replace, nonce, store, decl) removed.
+// Without returns a copy with entry i (counted over deploy, replace, nonce, store, decl, deliv) removed. Removing a
+// deployment also removes the delivered classes no remaining deployment uses (the diff stays valid).
 func (d *Diff) Without(i int) *Diff {
 	c := d.Clone()
 	switch {
 	case i < len(c.Deploy):
 		c.Deploy = append(c.Deploy[:i:i], c.Deploy[i+1:]...)
+		var keep []string
+		for _, h := range c.Deliv {
+			for _, e := range c.Deploy {
+				if e.V == h {
+					keep = append(keep, h)
+					break
+				}
+			}
+		}
+		c.Deliv = keep
 		return c
 	}
 	i -= len(c.Deploy)
@@ -179,7 +195,12 @@ func (d *Diff) Without(i int) *Diff {
 		return c
 	}
 	i -= len(c.Store)
-	c.Decl = append(c.Decl[:i:i], c.Decl[i+1:]...)
+	if i < len(c.Decl) {
+		c.Decl = append(c.Decl[:i:i], c.Decl[i+1:]...)
+		return c
+	}
+	i -= len(c.Decl)
+	c.Deliv = append(c.Deliv[:i:i], c.Deliv[i+1:]...)
 	return c
 }
 
@@ -242,7 +263,7 @@ func avList(l []AV) string {
 	return strings.Join(p, ",")
 }
 
-// String is the oracle encoding of the diff: "<deploy> <replace> <nonce> <store> <decl>".
+// String is the oracle encoding of the diff: "<deploy> <replace> <nonce> <store> <decl> <delivered>".
 func (d *Diff) String() string {
 	st := "-"
 	if len(d.Store) > 0 {
@@ -252,7 +273,7 @@ func (d *Diff) String() string {
 		}
 		st = strings.Join(p, ",")
 	}
-	return avList(d.Deploy) + " " + avList(d.Replace) + " " + avList(d.Nonce) + " " + st + " " + listOrDash(d.Decl)
+	return avList(d.Deploy) + " " + avList(d.Replace) + " " + avList(d.Nonce) + " " + st + " " + listOrDash(d.Decl) + " " + listOrDash(d.Deliv)
 }
 
 // ModelDiff is the diff as the state models see it: Sierra declarations are class declarations too.
@@ -365,7 +386,8 @@ func (a *Abs) SlotAt(addr, slot string) string {
 
 // Valid mirrors C03.Model.valid_diffb: distinct keys, deploy only absent contracts, replace only
 // contracts that existed before the block, nonces and writes only on deployed-or-being-deployed ones;
-// the system contracts 0x1 / 0x2 are never deployed / replaced / given a nonce, and may always be written to.
+// the system contracts 0x1 / 0x2 are never deployed / replaced / given a nonce, and may always be written to;
+// a delivered class is the class of one of the block's deployed contracts, not declared by the block, listed once.
 func (a *Abs) Valid(d *Diff) bool {
 	seen := map[string]bool{}
 	dup := func(k string) bool {
@@ -403,6 +425,18 @@ func (a *Abs) Valid(d *Diff) bool {
 			return false
 		}
 	}
+	for _, h := range d.Deliv {
+		if seen["c"+h] || dup("v"+h) {
+			return false
+		}
+		used := false
+		for _, e := range d.Deploy {
+			used = used || e.V == h
+		}
+		if !used {
+			return false
+		}
+	}
 	return true
 }
 
@@ -430,6 +464,11 @@ func (a *Abs) Apply(n uint64, d *Diff) {
 		}
 	}
 	for _, h := range d.Decl {
+		if _, ok := a.Decl[h]; !ok {
+			a.Decl[h] = n
+		}
+	}
+	for _, h := range d.Deliv {
 		if _, ok := a.Decl[h]; !ok {
 			a.Decl[h] = n
 		}
@@ -532,6 +571,13 @@ func (a *Abs) Kinds(d *Diff) []string {
 			ks = append(ks, "declare-again")
 		} else {
 			ks = append(ks, "declare")
+		}
+	}
+	for _, h := range d.Deliv {
+		if _, ok := a.Decl[h]; ok {
+			ks = append(ks, "class-delivered-for-deploy-known-already")
+		} else {
+			ks = append(ks, "class-delivered-for-deploy")
 		}
 	}
 	if d.Len() == 0 {
